@@ -280,7 +280,11 @@ func (p ProfileSpec) Render() string {
 			}
 		}
 	}
-	w.line(0, "validations:")
+	if len(p.Validations) == 0 {
+		w.line(0, "validations: {}")
+	} else {
+		w.line(0, "validations:")
+	}
 	c := &renderCtx{atoms: p.Atoms, paths: p.Paths}
 	for _, v := range p.Validations {
 		w.line(1, yq(v.Name)+":")
